@@ -259,6 +259,12 @@ func (u *Unit) execInstr(fr *frame, st *State, ins ssa.Instruction) {
 			_ = id
 		}
 		if obj := x.Object(); obj != nil {
+			if prev, ok := st.Names[obj.Name()]; ok && prev.IsAddr && !x.IsAddr {
+				// the variable lives in memory (address-taken local): a value reference must not shadow its cell
+				if _, isParam := x.X.(*ssa.Parameter); !isParam {
+					break
+				}
+			}
 			st.Names[obj.Name()] = nameRef{V: u.val(st, x.X), IsAddr: x.IsAddr}
 		}
 	case *ssa.Alloc:
